@@ -4,6 +4,7 @@ import (
 	"bytes"
 	"fmt"
 	"runtime"
+	"strings"
 	"testing"
 
 	"rendsim/kernel"
@@ -20,6 +21,9 @@ func execC15(t *testing.T, p Plan, src kernel.Source) Result {
 	return inBubble(t, p.Seed, src, func(w *kernel.World, res *Result) {
 		w.LogEvents = p.X["log"] != 0
 		w.Run.ManagePkgs = []string{"/orcas"}
+		// what is held for a connection includes pooled protocol objects: they go back to
+		// their pool exactly once (the simulated pools report a second Put)
+		w.Run.Poison = true
 		d := stack.Build(w, p.Cfg, nil)
 		w.Settle()
 		viol := func(rule, class, format string, a ...interface{}) {
@@ -190,6 +194,10 @@ func execC15(t *testing.T, p Plan, src kernel.Source) Result {
 				viol("lock_held", class, "%s: key lock %s acquired %d more times than released", where, l, n)
 				return
 			}
+		}
+		if faults := w.Run.TakeFaults(); len(faults) > 0 {
+			viol("pool_misuse", class, "%s: rend handed a pooled object back twice (%s); it can now be given to two connections at once", where, strings.Join(faults, "; "))
+			return
 		}
 		// 5. the server keeps serving: a fresh client works on the same keys
 		fresh := w.Connect("main")
@@ -371,7 +379,7 @@ func genC15(seed uint64, tier string) Plan {
 func init() {
 	register(&Prop{
 		ID: "C15", Gen: genC15, Exec: execC15, Enumerate: enumC15, Level: "fault_enumeration",
-		Rule:       "fault = the client closes its connection after exactly n bytes of its request stream. Enumerated part: representative streams (each command, a large set, pipelines, quiet batches, quiet sets, quit alone / after a miss / after a quiet set, quiet quit; 12 text + 17 binary) x 12 deployments (L1-only / L1L2 / batch port, direct or chunked per-connection handlers, with and without the locking wrapper) x every prefix length n = 0..len (quick: every n for a rotating quarter of the pairs, stride 7 plus both ends for the rest; thorough: every n), each cut also in the variant where the client sends and closes in the same instant so that rend's replies meet a dead socket (EPIPE, and at request ends also the silent write mode). Selected cuts (both ends, every 23rd / thorough every 5th byte) also with a second client that connected to the same port while the first was idle: it must keep its backend connections, still be served after the first client left, and release its own when it leaves in turn. Seeded part: random pipelines with a random cut, half of them with the second client. After quiescence: rend closed the client socket, every backend connection dialled for that client is closed, the goroutine count is back to the pre-connection baseline, every key lock acquired was released, and a fresh client is served on the same keys. Every case is non-trivial (a fault is injected in each); distinct = distinct plan hash",
+		Rule:       "fault = the client closes its connection after exactly n bytes of its request stream. Enumerated part: representative streams (each command, a large set, pipelines, quiet batches, quiet sets, quit alone / after a miss / after a quiet set, quiet quit; 12 text + 17 binary) x 12 deployments (L1-only / L1L2 / batch port, direct or chunked per-connection handlers, with and without the locking wrapper) x every prefix length n = 0..len (quick: every n for a rotating quarter of the pairs, stride 7 plus both ends for the rest; thorough: every n), each cut also in the variant where the client sends and closes in the same instant so that rend's replies meet a dead socket (EPIPE, and at request ends also the silent write mode). Selected cuts (both ends, every 23rd / thorough every 5th byte) also with a second client that connected to the same port while the first was idle: it must keep its backend connections, still be served after the first client left, and release its own when it leaves in turn. Seeded part: random pipelines with a random cut, half of them with the second client. After quiescence: rend closed the client socket, every backend connection dialled for that client is closed, the goroutine count is back to the pre-connection baseline, every key lock acquired was released, no pooled protocol object was handed back twice (poisoning pools), and a fresh client is served on the same keys. Every case is non-trivial (a fault is injected in each); distinct = distinct plan hash",
 		Real:       append(append([]string{}, realFullStack...), "handlers/memcached/chunked", "server/utils.go abort"),
 		Stub:       stubFullStack,
 		FaultKinds: []string{"client_close"},
